@@ -23,7 +23,7 @@ META = {
     "deciding": ["post:_t_test_ndarray", "post:_w_test_ndarray", "post:matrix_binary_t_test", "e2e:paired_t_test", "e2e:w_test", "e2e:binary_paired_t_test",
                  "metamorphic:swap", "post:target_event_rates"],
 }
-META["added"] = "Added: forecasts re-scaled earlier with scale=True, equal-rate event bins with different totals, events far above the last magnitude edge, history 'evaluate, filter the same catalog in place, evaluate again with the same forecast objects', shared object histories / layouts from gridcases."
+META["added"] = "Added: forecasts re-scaled earlier with scale=True, equal-rate event bins with different totals, events far above the last magnitude edge, history 'evaluate, filter the same catalog in place, evaluate again with the same forecast objects', shared object histories / layouts from gridcases. catalogs whose own region is not the forecasts' grid."
 MANIFEST = {
     "technique": "runtime post-conditions on the real T/W primitives and on target_event_rates/get_rates vs an independent implementation of Rhoades et al. Eq. 17/18 and a tie-corrected signed-rank oracle; boundary recorder on the three public tests incl. exceptions; swap / self-comparison metamorphic checks",
     "level_text": "Each generated forecast pair and catalog is run through the three public tests (both orders, self comparison); information gain, variance-derived t statistic, critical value, interval, signed-rank z and p are compared with independent formulas, per-event target rates with the reference cell/bin rates, and swap antisymmetry / symmetry is checked; any exception on an in-domain input is a violation.",
@@ -171,12 +171,24 @@ def _build_pair(case, ratesB, start, end, factors=(1.0, 1.0)):
     return foreA, foreB, cat, w
 
 
-def ex_pair(ctx, case, ratesB, alpha=0.05, scale=False, days=365, factors=(1.0, 1.0)):
+def _rebind(cat, case, cat_region):
+    """The catalog's own region is not the forecasts' grid: none at all, or a larger collection region (one extra column to the west)."""
+    if cat_region == "none":
+        cat.region = None
+    elif cat_region == "bigger":
+        from decimal import Decimal
+        mags_ = gridcases.fixtures.mag_bins(case["mag0"], case["dmag"], case["nmag"])
+        cat.region = gridcases.fixtures.region(case["nx"] + 1, case["ny"], case["dh"], Decimal(case["ax"]) - Decimal(case["dh"]), case["ay"], magnitudes=mags_)
+    return cat
+
+
+def ex_pair(ctx, case, ratesB, alpha=0.05, scale=False, days=365, factors=(1.0, 1.0), cat_region="same"):
     import csep.core.poisson_evaluations as pe
     import csep.core.binomial_evaluations as be
     start = datetime.datetime(2010, 1, 1, tzinfo=UTC)
     end = start + datetime.timedelta(days=days)
-    rc = {"exec": "pair", "args": {"case": case, "ratesB": ratesB, "alpha": alpha, "scale": scale, "days": days, "factors": list(factors)}}
+    rc = {"exec": "pair", "args": {"case": case, "ratesB": ratesB, "alpha": alpha, "scale": scale, "days": days, "factors": list(factors),
+                                   "cat_region": cat_region}}
     ctx.current_case = rc
     factors = tuple(factors)
     _fa, _fb, _c, _w = _build_pair(case, ratesB, start, end, factors)
@@ -188,7 +200,8 @@ def ex_pair(ctx, case, ratesB, alpha=0.05, scale=False, days=365, factors=(1.0, 
     x = (numpy.log(A[ec, em] / div) - numpy.log(B[ec, em] / div)).tolist()
     na, nb = float(A.sum()) / div, float(B.sum()) / div
     ties = len(set(x)) < len(x)
-    tags = {"alpha": alpha, "scale": scale, "ties": ties, "identical": bool(numpy.array_equal(A, B)), "rescaled_forecasts": factors != (1.0, 1.0)}
+    tags = {"alpha": alpha, "scale": scale, "ties": ties, "identical": bool(numpy.array_equal(A, B)), "rescaled_forecasts": factors != (1.0, 1.0),
+            "catalog_region": cat_region}
     ctx.count(3)
 
     def run(fn, fa, fb, cat, **kw):
@@ -196,6 +209,7 @@ def ex_pair(ctx, case, ratesB, alpha=0.05, scale=False, days=365, factors=(1.0, 
 
     # ---------------- T test
     foreA, foreB, cat, w = _build_pair(case, ratesB, start, end, factors)
+    _rebind(cat, case, cat_region)
     ok, res, tb = run(pe.paired_t_test, foreA, foreB, cat, alpha=alpha, scale=scale)
     ctx.mon("e2e:paired_t_test", 1)
     ref = t_ref(x, n, na, nb, alpha)
@@ -205,6 +219,7 @@ def ex_pair(ctx, case, ratesB, alpha=0.05, scale=False, days=365, factors=(1.0, 
     else:
         check_t(ctx, rc, dict(tags, test="T"), res, ref)
         fa2, fb2, cat2, _ = _build_pair(case, ratesB, start, end, factors)
+        _rebind(cat2, case, cat_region)
         ok2, res2, tb2 = run(pe.paired_t_test, fb2, fa2, cat2, alpha=alpha, scale=scale)
         ctx.mon("metamorphic:swap", 1)
         if ok2 and "t" in ref:
@@ -222,7 +237,7 @@ def ex_pair(ctx, case, ratesB, alpha=0.05, scale=False, days=365, factors=(1.0, 
                         tags=dict(tags, test="T", clause="self"))
     # ---------------- history: the same forecast objects, the same catalog object filtered in place, evaluated again
     keep = em >= 1
-    if ok and case["nmag"] >= 2 and 2 <= int(keep.sum()) < n:
+    if ok and case["nmag"] >= 2 and 2 <= int(keep.sum()) < n and cat_region == "same":
         mags_ = gridcases.fixtures.mag_bins(case["mag0"], case["dmag"], case["nmag"])
         ec_c, em_c = cat._verif_cells
         cat._verif_cells = (ec_c[em_c >= 1], em_c[em_c >= 1])          # the per-event annotation follows the (order-preserving) filter
@@ -250,6 +265,7 @@ def ex_pair(ctx, case, ratesB, alpha=0.05, scale=False, days=365, factors=(1.0, 
     m_lib = (float(A.sum()) - float(B.sum())) / n
     wref = w_ref(x, m_lib)
     in_domain_w = wref is not None
+    _rebind(cat, case, cat_region)
     ok, res, tb = run(pe.w_test, foreA, foreB, cat, scale=scale)
     ctx.mon("e2e:w_test", 1)
     if not ok:
@@ -370,7 +386,8 @@ def run(ctx):
         else:
             B = A * 10 ** r.normal(0, 0.3, A.shape)
         factors = (1.0, 1.0) if j % 4 else (float(r.choice([0.5, 2.0, 0.25])), float(r.choice([0.5, 3.0, 1.0])))
-        ex_pair(ctx, case, B.tolist(), alpha=float(r.choice([0.01, 0.05, 0.3])), scale=bool(j % 3 == 0), days=int(r.choice([1, 30, 365, 1826])), factors=factors)
+        ex_pair(ctx, case, B.tolist(), alpha=float(r.choice([0.01, 0.05, 0.3])), scale=bool(j % 3 == 0), days=int(r.choice([1, 30, 365, 1826])), factors=factors,
+                cat_region=["same", "same", "none", "bigger"][j % 4])
         if j % 100 == 0:
             ctx.sample({"cells": len(case["rates"]), "mags": case["nmag"], "n_events": len(case["ev_cell"]), "pair_kind": ["independent", "proportional", "identical", "perturbed", "equal-in-event-bins"][kind]})
     for j in range((100000 if thorough else 400) // ctx.nshards):
